@@ -462,6 +462,7 @@ CHECKS["C04"].mc_models = ("MC_Codec", "MC_Layout")
 CHECKS["C03"].mc_models = ("MC_Codec", "MC_Plan")
 CHECKS["C06"].mc_models = ("MC_Codec", "MC_Bits", "MC_Layout", "MC_Writer")
 CHECKS["C02"].mc_models = ("MC_Codec", "MC_Writer")
+CHECKS["C09"].mc_models = ("MC_Codec", "MC_Reader")
 CHECKS["C01"].mc_models = ("MC_Codec", "MC_Writer")
 
 
